@@ -7,6 +7,7 @@ import NR.Basic
 import NR.TimeDep
 import NR.Emit
 import NR.SpecDriver
+import NR.Par
 namespace NR.Driver
 open NR
 
@@ -91,8 +92,20 @@ def stepEmit (st : EmitState) (ws : List String) : EmitState × String :=
       showRat (Emit.sfinalBest st.s0 st.evs.reverse))
   | _ => (st, "bad-op")
 
+/-- `par budget <I> <requests in the order the workers asked>`: total iterations granted (order
+independent by `c15_total_grant_order_independent`, so comparable with the code's total whatever the
+actual arrival order at the counter was). -/
+def stepPar (ws : List String) : String :=
+  match ws with
+  | "budget" :: b :: reqs =>
+    match parseInt? b, parseNats? reqs with
+    | some b, some rs => "par budget total " ++ toString (Par.sumNat (Par.grants b rs))
+    | _, _ => "bad-op"
+  | _ => "bad-op"
+
 def step (st : State) (line : String) : State × String :=
   match words line with
+  | "par" :: ws => (st, stepPar ws)
   | "td" :: ws => let (t, o) := stepTd st.td ws; ({ st with td := t }, o)
   | "emit" :: ws => let (t, o) := stepEmit st.em ws; ({ st with em := t }, o)
   | "inst" :: ws =>
@@ -111,6 +124,7 @@ def step (st : State) (line : String) : State × String :=
     | none, _ => (st, "obs no-instance")
     | _, none => (st, "bad-op")
   | [] => (st, "")
+  | [w, _] => if w = "crash" ∨ w = "copyrace" ∨ w = "parrace" ∨ w = "detsched" ∨ w = "repro" then (st, w) else (st, "bad-op")
   | _ => (st, "bad-op")
 
 end NR.Driver
